@@ -237,6 +237,20 @@ def r_cost(ctx, view):
         c = co.fn_cost(k)
         n += 1
         ctx.ob("R-COST", "%s::extend" % QNAME[Q], c in (BULK, NLOGN), f.loc(), "Extend: %s (%s)" % (NAMES[c], "; ".join(co.detail.get(k, [])[:3])))
+        # the strategy choice is made from (current length, promised lower bound) in that order, in both queues
+        btr = [(bb, t) for bb, t in f.calls() if (view.fx.call_info(f, bb).local_callee or "").endswith("::better_to_rebuild")]
+        okb = bool(btr)
+        whyb = "%d call(s) of better_to_rebuild" % len(btr)
+        for bb, t in btr:
+            a = view.fx.args_vp(view.fx.call_info(f, bb))
+            a0, a1 = strip(a[0]), strip(a[1])
+            is_len = a0[0] == "call" and a0[1].split("::")[-1] == "len"
+            is_hint = any(x[0] == "field" and x[2] in (0, "0") and x[1][0] == "call" and x[1][1].endswith("::size_hint") for x in walk(a1))
+            if not (is_len and is_hint):
+                okb = False
+                whyb = "better_to_rebuild(%s, %s): expected (self.len(), size_hint().0)" % (term_str(a0)[:30], term_str(a1)[:30])
+        n += 1
+        ctx.ob("R-COST", "%s::extend:strategy-arguments" % QNAME[Q], okb, f.loc(), whyb)
         # heap_build itself: Floyd
         k = Q + "::heap_build"
         c = co.fn_cost(k)
